@@ -31,11 +31,13 @@ def run(ctx):
     ctx.specfile("x")
     uni = ctx.specfile("c08_universe.ndjson")
 
-    configs = [(3, 3)] if ctx.quick else [(3, 6), (4, 3), (5, 2)]
+    # (cfg, certificates, depth bound): CertPool_full explores the whole state space of the universe (bound not
+    # binding, one visit per pool state), CertPool_gen everything within the depth bound
+    configs = [("gen", 3, 3)] if ctx.quick else [("full", 3, 99), ("gen", 4, 4), ("gen", 5, 3)]
 
-    def gen_job(k, nc, depth):
+    def gen_job(k, cfg, nc, depth):
         def job():
-            r = pkvlib.tlc(ctx, "CertPoolGen", "CertPool_gen.cfg", workers=max(2, ctx.workers // 2), timeout=3000,
+            r = pkvlib.tlc(ctx, "CertPoolGen", "CertPool_%s.cfg" % cfg, workers=max(2, ctx.workers // 2), timeout=6000,
                            subst={"NC": nc, "MAXDEPTH": depth, "OUTU": "c08_universe_%d.ndjson" % k},
                            label="CertPoolGen nc=%d depth<=%d" % (nc, depth))
             lines = [l for l in r.out.splitlines() if l.startswith('"{')]
@@ -68,7 +70,7 @@ def run(ctx):
         acc, rejects = ctx.trace_validate("Trace_CertPool", "CertPool_trace.cfg", "certpool_trace.ndjson", events, timeout=3000)
         return {"events": events, "acc": acc, "rejects": rejects, "universe": read_ndjson(u)}
 
-    jobs = [gen_job(k, nc, d) for k, (nc, d) in enumerate(configs)]
+    jobs = [gen_job(k, cfg, nc, d) for k, (cfg, nc, d) in enumerate(configs)]
     results = pkvlib.par(ctx, jobs)
     tr = trace_job()   # not in parallel with the others: ctx.trace_validate calls ctx.tlc directly
 
